@@ -48,9 +48,10 @@ VARIABLES shape,    \* the plan shape of this case
           order     \* PlanW(shape), computed once (TLC does not cache definitions)
 
 GroupNames == {"bypass", "pre", "cont", "post", "deferred"}
-Variants   == {"absent", "nil", "empty", "one", "two"}     \* of a check group
-SeqVars    == {"nil", "empty", "one", "two"}               \* Actions of a sequence
-NActs(v)   == CASE v = "one" -> 1 [] v = "two" -> 2 [] OTHER -> 0
+\* "gap": two actions with a nil entry between them - a nil entry is not an object: the walk steps over it
+Variants   == {"absent", "nil", "empty", "one", "two", "gap"}     \* of a check group
+SeqVars    == {"nil", "empty", "one", "two", "gap"}               \* Actions of a sequence
+NActs(v)   == CASE v = "one" -> 1 [] v \in {"two", "gap"} -> 2 [] OTHER -> 0
 
 (* ------------------------------------------------------------------ *)
 (* the reference walk                                                  *)
